@@ -381,7 +381,9 @@ CLEANUP:
 	/* free the last allocated basis, and if we wanted to save it, do so */
 	if (basis)
 	{
-		if (writebasis)
+		/* there is a basis to write only if the solve produced one (not for an
+		 * unbounded / unsolved outcome): -b must not turn those into a failure */
+		if (writebasis && p_mpq && p_mpq->basis)
 			rval = mpq_QSwrite_basis (p_mpq, 0, writebasis);
 	}
 	mpq_QSfree_basis (basis);
